@@ -765,30 +765,30 @@ func (c *Ctx) lockFacts() *LockFacts {
 		push(rootT{fn: f, how: "api"})
 	}
 	drain := func() {
-	for len(queue) > 0 {
-		r := queue[0]
-		queue = queue[1:]
-		d.root = r.fn
-		d.spawned = nil
-		ip := NewInterp(c.P, d)
-		ip.MaxDepth = 10
-		ip.RunWithArgs(r.fn, &State{Dom: kv("")}, r.args)
-		facts.Roots = append(facts.Roots, r.how+":"+r.fn.Short())
-		facts.Reached[r.fn.Key] = true
-		for k := range ip.Inlined {
-			facts.Reached[k] = true
-		}
-		seen := map[string]bool{}
-		for _, u := range ip.Undecided {
-			if !seen[u] {
-				seen[u] = true
-				facts.Problems = append(facts.Problems, u)
+		for len(queue) > 0 {
+			r := queue[0]
+			queue = queue[1:]
+			d.root = r.fn
+			d.spawned = nil
+			ip := NewInterp(c.P, d)
+			ip.MaxDepth = 10
+			ip.RunWithArgs(r.fn, &State{Dom: kv("")}, r.args)
+			facts.Roots = append(facts.Roots, r.how+":"+r.fn.Short())
+			facts.Reached[r.fn.Key] = true
+			for k := range ip.Inlined {
+				facts.Reached[k] = true
+			}
+			seen := map[string]bool{}
+			for _, u := range ip.Undecided {
+				if !seen[u] {
+					seen[u] = true
+					facts.Problems = append(facts.Problems, u)
+				}
+			}
+			for _, s := range d.spawned {
+				push(rootT{fn: s.fn, args: s.args, how: s.how})
 			}
 		}
-		for _, s := range d.spawned {
-			push(rootT{fn: s.fn, args: s.args, how: s.how})
-		}
-	}
 	}
 	drain()
 	// function literals nobody was seen to call (returned closures, values
